@@ -10,6 +10,7 @@ import (
 	"sort"
 	"strings"
 
+	"golang.org/x/tools/go/callgraph"
 	"golang.org/x/tools/go/packages"
 	"golang.org/x/tools/go/ssa"
 	"golang.org/x/tools/go/ssa/ssautil"
@@ -32,6 +33,7 @@ type Engine struct {
 	funcs    map[string]*ssa.Function // key: pkgpath::name
 	fset     *token.FileSet
 	overlay  map[string][]byte
+	cg       *callgraph.Graph
 }
 
 func (e *Engine) errorf(format string, args ...interface{}) {
